@@ -50,6 +50,7 @@ type envState struct {
 	cwd    string
 	home   string
 	hooks  map[string]value // harness-side callbacks (closures) by name
+	blobs   []blobEntry
 	locks   map[string]bool
 	lockFd  map[int]string
 	fdPaths map[int]string
